@@ -182,7 +182,7 @@ PROPS = {
                 "1-3 ingress requests before and 1-4 after the reload at clock offsets around the 250 ms / 1 s cache lifetimes; every post-reload status must equal that of a process "
                 "started on the configuration in force with the same history and cold caches; non-trivial there = old and new decide the post-reload requests differently",
         "level": "fault_enumeration",
-        "assumptions": [SAMPLED, "SIGKILL keeps the page cache: power-loss durability of the rename is not decided", "mid-request mixture is explored for ingress requests (reload from inside the body read) and pull requests (hook point between authorization and endpoint resolution); worker gRPC requests share the repaired code path but are not driven across a reload; admin requests read the state once",
+        "assumptions": [SAMPLED, "SIGKILL keeps the page cache: power-loss durability of the rename is not decided", "mid-request mixture is explored for ingress requests (reload from inside the body read) and pull requests (hook point between authorization and endpoint resolution); worker gRPC requests likewise, through a Worker server the harness wires as startServers does (so the product's own wiring of that server is not what is exercised); Admin publish batches between two items; other admin requests read the state once",
                         "--watch/SIGHUP delivery itself is not exercised; reloadConfig is called directly"],
         "guards": ["mode-pause", "mode-failed", "mode-body-read", "configs-differ-in-battery", "reload-inside-request", "holds-old", "holds-new", "fault-reload-fails"],
         "parts": [{"engine": "front", "test": "TestProp_C18_Reload", "quick": 4000, "thorough": 60000, "shards": {"quick": 8}},
